@@ -67,7 +67,7 @@ theorem C05_limit (h : Head) (hw : h.wf) (N : Nat) (hs : N < h.fields.length) (r
     after their Location line are the recorded finding D10 (see `C05_D10_witness`). -/
 theorem C05_call_prefix_nohack (c : CallSt) (h : Head) (hw : h.wf) (hs : h.fields.length ≤ 128) (n : Nat)
     (hn : n < h.enc.length) : callTryResponse false c (h.enc.take n) = (c, .ok none) := by
-  unfold callTryResponse
+  unfold callTryResponse parseWithFallback
   rw [C05_prefix h hw 128 hs n hn]
   simp
 
